@@ -29,6 +29,9 @@ ASSUMPTIONS = ["four hash seeds (0, 1, 2, 4242) stand for 'whatever its hash ran
                "values are compared through the tagged JSON codec (floats by repr)"]
 BUDGET = {"quick": (400, 4), "thorough": (6000, 8)}
 HASHSEEDS = ["0", "1", "2", "4242"]
+# what else differs between the interpreters (pbt/c17_worker.py): a history of earlier (partly failing) generations,
+# no history at all (a forked child per request), clocks that run 7 s per reading
+WORKER_OPTS = {"0": ["--prehistory"], "1": ["--fork"], "2": ["--warp-clock"], "4242": []}
 
 _NEG = ["[^a-c]{8}", "[^x]", "[^\\d]{3,6}", "a[^\\w]b", "[^abc0-9]+", "[^ -/]{4}", "(?:[^a]|b){5}",
         "[^\\d\\w]", "x[^y]z[^y]"]
@@ -88,7 +91,7 @@ def _workers():
     for hs in HASHSEEDS:
         env = dict(os.environ)
         env["PYTHONHASHSEED"] = hs
-        p = subprocess.Popen([sys.executable, "-W", "ignore", "-m", "pbt.c17_worker"], cwd=here, env=env,
+        p = subprocess.Popen([sys.executable, "-W", "ignore", "-m", "pbt.c17_worker"] + WORKER_OPTS[hs], cwd=here, env=env,
                              stdin=subprocess.PIPE, stdout=subprocess.PIPE, text=True, bufsize=1)
         hello = json.loads(p.stdout.readline())
         if not hello.get("ready") or hello.get("hashseed") != hs:
@@ -171,7 +174,7 @@ def check(case, ctx):
         resp = _ask(p, req)
         if "error" in resp:
             raise HarnessError(f"C17 worker (PYTHONHASHSEED={hs}) failed: {resp['error']}")
-        runs.append((f"fresh interpreter PYTHONHASHSEED={hs}", resp["out"]))
+        runs.append((f"fresh interpreter PYTHONHASHSEED={hs} {' '.join(WORKER_OPTS[hs])}".rstrip(), resp["out"]))
     ref_name, ref = runs[0]
     known_hit = False
     for name, out in runs[1:]:
